@@ -154,6 +154,17 @@ impl<'a> St<'a> {
         if i.number_of_bytes > 8 && sp.payload.align > 8 {
             self.big_aligned_delivered = true;
         }
+        // `send_copy` cannot write the user header: for such samples its bytes are whatever the chunk
+        // held before (heap garbage for local services) and are not part of the comparison. A sample
+        // that went through loan + write carries the header pattern that belongs to its payload
+        // pattern (the pattern seed, mod 256, is recoverable from the first payload byte).
+        let mut user_header = i.user_header;
+        if !user_header.is_empty() {
+            let seed8 = i.payload.first().map(|b| (b.wrapping_sub(1).wrapping_mul(223)) as usize).unwrap_or(0); // 31 * 223 = 1 (mod 256)
+            if user_header != pattern(seed8 ^ 0x5a, user_header.len()) {
+                user_header = b"<not written by the sender>".to_vec();
+            }
+        }
         (
             Rx {
                 number_of_elements: i.number_of_elements,
@@ -161,7 +172,7 @@ impl<'a> St<'a> {
                 payload_aligned: aligned(i.payload_addr, sp.payload.align),
                 header_aligned: aligned(i.header_addr, self.hdr_align(spec)),
                 payload: i.payload,
-                user_header: i.user_header,
+                user_header,
                 origin: origin.map(|(n, _)| n),
             },
             cross,
